@@ -346,20 +346,20 @@ impl MarkdownEventsReader {
 
     fn to_inline_range(&self, range: Range<usize>) -> InlineRange {
         let mut start = 0;
-        let mut start_char = 0;
         let mut end = 0;
-        let mut end_char = 0;
 
         for (line, &line_start) in self.line_starts.iter().enumerate() {
             if line_start <= range.start {
                 start = line;
-                start_char = self.utf16_len(line_start, range.start);
             }
             if line_start <= range.end {
                 end = line;
-                end_char = self.utf16_len(line_start, range.end);
             }
         }
+
+        // count the columns once, for the lines found (not for every preceding line)
+        let start_char = self.utf16_len(self.line_starts[start], range.start);
+        let end_char = self.utf16_len(self.line_starts[end], range.end);
 
         Position {
             line: start,
